@@ -1439,4 +1439,32 @@ theorem shm_unlink_only_by (c : Call) (k : ShmKey) (h : c.next = .shmUnlink k) :
     | sem s => obtain ⟨hd', pc'⟩ := s; cases pc' <;> simp [Call.next, ShmFreeSt.next, SemFreeSt.next] at h
     | munmap => simp [Call.next, ShmFreeSt.next] at h
 
+/-! ## sequential runs with scripted failures (`G.callF`) -/
+
+theorem runCallF_none (g : G) (t : Tid) (fs : List (Nat × Errno)) (i fuel : Nat) (h : g.calls t = none) :
+    runCallF g t fs i fuel = g := by
+  cases fuel <;> simp [runCallF, h]
+
+theorem runCallF_some (g : G) (t : Tid) (fs : List (Nat × Errno)) (i fuel : Nat) (c : Call) (h : g.calls t = some c) :
+    runCallF g t fs i (fuel + 1) =
+      (match fs.find? (·.1 = i) with
+       | some (_, e) => runCallF (g.fail t e) t fs (i + 1) fuel
+       | none =>
+         match (g.step t false).log with
+         | ⟨_, _, _, .block⟩ :: _ => g.step t false
+         | _ => runCallF (g.step t false) t fs (i + 1) fuel) := by
+  rw [runCallF]
+  simp only [h]
+  rfl
+
+macro "fail_simp" " [" ts:Lean.Parser.Tactic.simpLemma,* "]" : tactic =>
+  `(tactic| simp [G.callF, G.start, G.handleOf, G.setCall, G.setRet, G.setHandle, runCallF_some, runCallF_none, seqFuelF, G.step, G.fail,
+    Call.next, Call.after, SemNewSt.next, SemNewSt.after, SemFreeSt.next, SemFreeSt.after, sysStep, Sys.interruptible,
+    SemNewSt.handle, acquireNext, acquireAfter, releaseNext, releaseAfter,
+    ShmNewSt.next, ShmNewSt.after, ShmNewSt.cleanFrom, ShmFreeSt.next, ShmFreeSt.after, lockMode,
+    shmOpenF, lookupFd, OS.setProc,
+    semOpenReopenInitZero, semCreateUnlinks, semCreateMarksCreated, semOpen1Retry,
+    shmFtruncateCreatorOnly, shmLockModeByExists, shmLockInit, $ts,*])
+
+
 end PV.IPC
